@@ -97,29 +97,53 @@ Proof.
   unfold lookup, alloc. intros H. rewrite nth_error_app1; auto. apply nth_error_Some. congruence.
 Qed.
 
+Definition is_cell (h : heap) (l : loc) : bool :=
+  match lookup h l with Some (OCell _) => true | _ => false end.
+
+(* one step leaves a frozen object alone -- unless the object is a cell and the
+   step is the assignment of that very variable by its (still running) owner *)
 Lemma run_step_frozen : forall h s l,
-  is_frozen h l = true -> lookup (run_step h s) l = lookup h l.
+  is_frozen h l = true -> is_cell h l = false \/ is_cell_set s = false ->
+  lookup (run_step h s) l = lookup h l.
 Proof.
-  intros h [l' o|ob] l Hf; simpl.
+  intros h [l' o|ob|c v] l Hf Hc; simpl.
   - destruct (mutate h l' o) as [h'| |] eqn:Hm; auto.
     destruct (Nat.eq_dec l l') as [->|Hne].
     + rewrite (frozen_unchanged _ _ _ _ Hf Hm). reflexivity.
     + apply (proj2 (mutate_local _ _ _ _ Hm)). exact Hne.
   - unfold is_frozen in Hf. destruct (lookup h l) eqn:Hl; [|discriminate].
     apply lookup_alloc_old. exact Hl.
+  - destruct Hc as [Hc|Hc]; [|discriminate].
+    destruct (lookup h c) as [[]|] eqn:Hlc; auto.
+    destruct (Nat.eq_dec l c) as [->|Hne].
+    + unfold is_cell in Hc. rewrite Hlc in Hc. discriminate.
+    + apply lookup_update_other. exact Hne.
 Qed.
 
-(* no_op_changes_frozen, object-wise: over ALL step sequences a frozen object
-   keeps its flag, its itercount and its contents *)
+(* no_op_changes_frozen, object-wise: over ALL step sequences (cell assignments
+   included) a frozen object that is not itself a cell keeps its flag, its
+   itercount and its contents *)
 Lemma frozen_stays_lemma : forall ss h l,
-  is_frozen h l = true -> lookup (run_steps h ss) l = lookup h l.
+  is_frozen h l = true -> is_cell h l = false -> lookup (run_steps h ss) l = lookup h l.
 Proof.
-  induction ss as [|s ss IH]; intros h l Hf; simpl; auto.
+  induction ss as [|s ss IH]; intros h l Hf Hc; simpl; auto.
   unfold run_steps in *. simpl.
-  assert (Hs := run_step_frozen h s l Hf).
+  assert (Hs := run_step_frozen h s l Hf (or_introl Hc)).
   rewrite IH.
   - exact Hs.
   - unfold is_frozen. rewrite Hs. exact Hf.
+  - unfold is_cell. rewrite Hs. exact Hc.
+Qed.
+
+(* ... and when no variable captured by a closure is re-assigned, cells too *)
+Lemma frozen_stays_nocell_lemma : forall ss h l,
+  no_cell_set ss = true -> is_frozen h l = true -> lookup (run_steps h ss) l = lookup h l.
+Proof.
+  induction ss as [|s ss IH]; intros h l Hn Hf; simpl; auto.
+  unfold run_steps in *. simpl in *. apply andb_true_iff in Hn. destruct Hn as [Hs0 Hn].
+  apply negb_true_iff in Hs0.
+  assert (Hs := run_step_frozen h s l Hf (or_intror Hs0)).
+  rewrite IH; auto. unfold is_frozen. rewrite Hs. exact Hf.
 Qed.
 
 Lemma reach_snoc h r x y : reach h r x -> child h x y -> reach h r y.
@@ -131,15 +155,16 @@ Qed.
 
 (* lifted to the reachable part of the graph: if everything reachable from the
    roots is frozen, the whole reachable subgraph (objects, edges, hence every
-   observable) is the same after any step sequence *)
+   observable) is the same after any step sequence without cell assignments *)
 Lemma reach_frozen_closed_lemma : forall ss h roots,
+  no_cell_set ss = true ->
   (forall l, reachable h roots l -> is_frozen h l = true) ->
   forall l, reachable h roots l ->
     lookup (run_steps h ss) l = lookup h l /\ reachable (run_steps h ss) roots l.
 Proof.
-  intros ss h roots Hall.
+  intros ss h roots Hn Hall.
   assert (Hsame : forall l, reachable h roots l -> lookup (run_steps h ss) l = lookup h l).
-  { intros l Hr. apply frozen_stays_lemma. apply Hall. exact Hr. }
+  { intros l Hr. apply frozen_stays_nocell_lemma; auto. }
   intros l Hr. split; [apply Hsame; exact Hr|].
   destruct Hr as [r [Hin Hpath]]. exists r. split; [exact Hin|].
   assert (Hrr : reachable h roots r) by (exists r; split; [exact Hin | constructor]).
